@@ -809,13 +809,18 @@ class Gen:
         return L.scan("plus", items=items)
 
 
-def make_case(rng, tid, *, groups=("core",), AND=None, max_rows=8, modes=False):
+def make_case(rng, tid, *, groups=("core",), AND=None, max_rows=8, modes=False, ragged_collect=False):
     # control functions are about what happens around blank records: more of them
     fs = L.FileSpec(rng, max_rows=max_rows, blank_p=0.22 if "control" in groups else 0.12)
     if AND is None:
         AND = True if "errors" in groups else rng.random() < 0.7     # with an error the line does not match: stated for AND
     g = Gen(rng, fs, AND=AND, groups=groups)
     prog = g.program()
+    if ragged_collect and rng.random() < 0.2:
+        # collect() of a header that a matched line need not have: handing such a line to the caller fails (InputException) - in
+        # every method at the same line (only relations between runs judge these cases: prog["_ragged"])
+        prog["comps"].append(L.fn("collect", L.term(rng.choice([fs.ncols, fs.ncols, max(0, fs.ncols - 1), fs.ncols + 1]))))
+        prog["_ragged"] = True
     if "errors" in groups and fs.records and fs.records[-1] != [] and rng.random() < 0.25:
         fs.records.append([])       # errors on a file that ends in a blank record
     if rng.random() < 0.15:
